@@ -8,14 +8,15 @@ LEVEL = 'exploration'
 RULE = (
     'Generated nesting to depth 3 with the awaited child on the own or another bus, 0-3 yields or a sleep between '
     'dispatch and await (mode later + awaitall), other events queued on every bus, forwarding of the child, warm and '
-    'cold target buses, parallel buses; event_timeout=None. Oracle at every in-handler await return: the child and all '
+    'cold target buses, parallel buses, bounded histories smaller than the fan-out (awaited children evicted while queued); '
+    'event_timeout=None. Oracle at every in-handler await return: the child and all '
     'harness-known accepted descendants are complete; no handler is still blocked in an await at the stall horizon. '
     'Non-trivial = an in-handler await targeted another bus, or the handler yielded/slept between dispatch and await, '
     'or other events were queued at the await; distinct by canonical JSON.'
 )
 ASSUMPTIONS = ['virtual time; CPU-time dependent races (real duration of 1000 zero-sleeps) are not explored', 'event_timeout=None so the "unless cancelled by its timeout" clause is not in play']
 
-P = Profile(raises=0.1, actor_ops=['disp', 'disp', 'burst', 'dispany', 'sleep', 'await', 'yield'], maxdepth=[2, 3], wild=0.15, fwd=0.3, min_buses=1, max_buses=3, modes=['await', 'await', 'later', 'later', 'ff'], ops=['sleep', 'yield', 'yield', 'disp', 'disp', 'disp', 'awaitall', 'awaitall'], par=0.15)
+P = Profile(hist=[None, None, 50, 2, 3, 5], raises=0.1, actor_ops=['disp', 'disp', 'burst', 'dispany', 'sleep', 'await', 'yield'], maxdepth=[2, 3], wild=0.15, fwd=0.3, min_buses=1, max_buses=3, modes=['await', 'await', 'later', 'later', 'ff'], ops=['sleep', 'yield', 'yield', 'disp', 'disp', 'disp', 'awaitall', 'awaitall'], par=0.15)
 
 
 def budget(tier):
